@@ -88,7 +88,16 @@ def rows(model, dec, fid, write_op, prop='C03', extra_fp=None):
                     k = bad[0]
                     f2 = dict(fp, dtype=info[k]['dtype'], src=info[k]['src_dtype'], cast=bool(info[k]['cast']),
                               width='scalar' if info[k]['shape'] == [1] else 'array')
-                    out.append(V('%s.slot_bits' % prop, f2, frame=fm.name, row=i, channel=info[k]['name'],
+                    gk = slots[k] if k < len(slots) else b''
+                    isz = len(want[k]) // max(len(want[k]) // {'8': 1, '16': 2, '32': 4, '64': 8}[''.join(
+                        c for c in info[k]['dtype'] if c.isdigit())], 1)
+                    f2['elementwise_byteswapped'] = bool(isz > 1 and gk == b''.join(
+                        want[k][j:j + isz][::-1] for j in range(0, len(want[k]), isz)))
+                    rule = 'slot_bits'
+                    if slots is not None and len(slots) == len(want) and len(gk) != len(want[k]):
+                        rule = 'undeclared_cast'
+                        f2['narrowed'] = len(gk) < len(want[k])
+                    out.append(V('%s.%s' % (prop, rule), f2, frame=fm.name, row=i, channel=info[k]['name'],
                                  want=want[k], got=slots[k] if k < len(slots) else None))
                     break
         for obname, fr in lfd.frames.items():
